@@ -139,6 +139,15 @@ theorem tk_int_rb (ds : List Char) (hne : ds ≠ []) (hd : ∀ c ∈ ds, isDigit
     rw [hT]; exact win_mid pre ds (']' :: more) _ _ _
   rw [hw]; rfl
 
+/-- a quoted string in front of `]` -/
+theorem tk_string_rb (k : QK) (hk : k ≠ .bq) (body : List Char) (hb : strBody k.ch body = true) :
+    Tk (k.wrap body) (.single (k.wrap body) (Gen.mark_LITERAL ||| Gen.mark_NAME)) ']' := by
+  have hm : k.marks = (Gen.mark_LITERAL ||| Gen.mark_NAME) := by cases k <;> first | rfl | exact absurd rfl hk
+  refine tk_of_pending' _ ']' _ fun T pre more f fs hT => ?_
+  obtain ⟨g1, g2, _⟩ := escaped_quote k hk pre body (']' :: more) hb f fs
+  refine ⟨k.pending, by rw [hT]; exact g1, ?_⟩
+  rw [hT, ← hm]; exact g2 ']' (by cases k <;> decide)
+
 /-! ## order items with all suffixes -/
 
 structure GO4 (d : Gen.D) (K : QKit) (o : OrderItem) : Prop where
@@ -514,14 +523,44 @@ theorem inner_lxr (i : Expr) (hi : idxInnerOK i = true) (hl : Lv2 d K (leavesE4 
             .single ('`' :: (c.toList ++ ['`'])) Gen.mark_NAME] := by simp [toksE4, dotTok_eq, nameTok_eq]
         rw [e1, e2]; exact lxr_of_a h3
     case literal v =>
-      simp only [numeralB, Bool.and_eq_true, Bool.not_eq_eq_eq_not, Bool.not_true, List.isEmpty_eq_false_iff, List.all_eq_true] at hi
-      have hdig : isDigits v = true := by
-        simp only [isDigits, Bool.and_eq_true, Bool.not_eq_eq_eq_not, Bool.not_true, List.isEmpty_eq_false_iff, List.all_eq_true]
-        exact ⟨hi.1, fun x hx => by rw [charIsDigit]; exact hi.2 x hx⟩
-      have ht : litTok v = .single v.toList (Gen.mark_LITERAL ||| Gen.mark_LITERAL_INT) := by
-        simp [litTok, litMark, hdig, Lex.LITERAL]
-      have := lxr_of_tk (tk_int_rb v.toList hi.1 hi.2)
-      simpa [prE4L, toksE4, ht] using this
+      simp only [leavesE4, lv2_cons_old, lv2_nil, and_true] at hl
+      have hlit : litLex v := hl.1
+      rcases hlit with ⟨hne, hd⟩ | ⟨k, body, hk, hv, hb, _⟩ | ⟨hw, _⟩
+      · have hdig : isDigits v = true := by
+          simp only [isDigits, Bool.and_eq_true, Bool.not_eq_eq_eq_not, Bool.not_true, List.isEmpty_eq_false_iff, List.all_eq_true]
+          exact ⟨hne, fun x hx => by rw [charIsDigit]; exact hd x hx⟩
+        have ht : litTok v = .single v.toList (Gen.mark_LITERAL ||| Gen.mark_LITERAL_INT) := by
+          simp [litTok, litMark, hdig, Lex.LITERAL]
+        have := lxr_of_tk (tk_int_rb v.toList hne hd)
+        simpa [prE4L, toksE4, ht] using this
+      · have hhead : v.toList.head? = some k.ch := by rw [hv]; rfl
+        have hq : k.ch = '\'' ∨ k.ch = '"' := by cases k <;> first | exact Or.inl rfl | exact Or.inr rfl | exact absurd rfl hk
+        have hdig : isDigits v = false := by
+          simp only [isDigits, Bool.and_eq_false_iff]
+          right
+          rw [hv]
+          rcases hq with e | e <;> simp [QK.wrap, e] <;> decide
+        have ht : litTok v = .single v.toList (Gen.mark_LITERAL ||| Gen.mark_NAME) := by
+          have hh : (v.toList.head? == some '\'' || v.toList.head? == some '"') = true := by
+            rw [hhead]; rcases hq with e | e <;> simp [e]
+          simp [litTok, litMark, hdig, hh, Lex.LITERAL, Lex.NAME]
+        have := lxr_of_tk (tk_string_rb k hk body hb)
+        rw [← hv] at this
+        simpa [prE4L, toksE4, ht] using this
+      · -- a word is neither a numeral nor quoted
+        exfalso
+        cases hv : v.toList with
+        | nil => rw [hv] at hw; cases hw
+        | cons c cs =>
+          have hsw : startsWord c = true := by rw [hv] at hw; simp only [isWord, Bool.and_eq_true] at hw; exact hw.1
+          simp only [startsWord, Bool.and_eq_true, Bool.not_eq_eq_eq_not, Bool.not_true] at hsw
+          have hnd : isDigit c.toNat = false := hsw.1.1.2
+          have hnq := isWordChar_not_quote c hsw.1.1.1
+          simp only [numeralB, quotedB, hv, List.head?_cons, List.all_cons, hnd, Bool.false_and, Bool.and_false, Bool.false_or,
+            Bool.or_eq_true, beq_iff_eq, Option.some.injEq] at hi
+          rcases hi with e | e
+          · exact hnq.1 e
+          · exact hnq.2 e
 
 theorem ge_index (hK : QW2 K) (a i : Expr) (hd : d = .HIVE) (hb : idxBaseOK4 d a = true) (hi : idxInnerOK i = true)
     (la : Lv2 d K (leavesE4 a)) (li : Lv2 d K (leavesE4 i)) (ga : GE4 d K a) (gi : GE4 d K i)
